@@ -15,7 +15,7 @@ from concurrent.futures import ThreadPoolExecutor
 
 from common import run_lines, load_corpus, log, NCPU
 
-CODES = [0, 0, 1, 2, 7, -3, 255]
+CODES = [0, 0, 1, 2, 7, -3, 255, 256, 512, -256, 65536, -2147483648, 2147483647]
 KINDS = ["c"] * 8 + ["b"] * 3 + ["p"] * 2 + ["x"] * 2
 VIA_A = ["o", "o", "h", "t"]
 VIA_S = ["s", "f", "t"]
